@@ -63,7 +63,11 @@ func derivedFrom(got, orig Cred, d Desc) string {
 		}
 
 		if !valEq(v, a.V) && !(pk[a.K] && a.V.T == "b" && a.V.B) {
-			return fmt.Sprintf("member a%d changed", a.K)
+			if a.V.T == "z" {
+				return fmt.Sprintf("member %s is shown as null", keyPath(a.K))
+			}
+
+			return fmt.Sprintf("member %s changed", keyPath(a.K))
 		}
 	}
 
@@ -123,6 +127,16 @@ func limitedOK(got Cred, disclosures int, d Desc) (string, string) {
 	return "", ""
 }
 
+func hasBBS(c Cred) bool {
+	for _, p := range c.Proofs {
+		if p == 3 {
+			return true
+		}
+	}
+
+	return false
+}
+
 // judge is the property's direct oracle on the implementation's behaviour.
 func judge(c Case, o *Obs) (string, string) {
 	if o.Create != "vp" {
@@ -162,7 +176,12 @@ func judge(c Case, o *Obs) (string, string) {
 		}
 
 		if why := derivedFrom(o.Creds[m.Idx], c.Creds[src], d); why != "" {
-			return "holder-alters-credential", fmt.Sprintf("d%d -> [%d]: %s", m.ID, m.Idx, why)
+			sig := "holder-alters-credential"
+			if hasBBS(c.Creds[src]) && strings.HasSuffix(why, "is shown as null") {
+				sig += "/bbs-derived-non-string-member-null"
+			}
+
+			return sig, fmt.Sprintf("d%d -> [%d]: %s", m.ID, m.Idx, why)
 		}
 
 		if why := readableSatisfies(o.Creds[m.Idx], d); why != "" {
@@ -285,6 +304,22 @@ func (r *runner) do(kind string, c Case, withCoq bool) {
 			c.Creds[i].MapSubject = false
 		}
 
+		for _, pt := range c.Creds[i].Proofs {
+			if pt == 3 {
+				// BBS+ credentials: flat scalar members only. JSON-LD framing gives nested objects without an id a blank
+				// node id and treats arrays as sets, which this harness' projection of members does not follow.
+				var keep []Attr
+
+				for _, a := range c.Creds[i].Attrs {
+					if a.K < 100 && a.V.T != "a" {
+						keep = append(keep, a)
+					}
+				}
+
+				c.Creds[i].Attrs = keep
+			}
+		}
+
 		sortAttrs(c.Creds[i].Attrs)
 	}
 
@@ -302,6 +337,17 @@ func (r *runner) do(kind string, c Case, withCoq bool) {
 
 	if sig != "" {
 		rec.Oracle, rec.Sig, rec.Detail = "fail", sig, detail
+	}
+
+	// the model follows BBS+ derivation at the level of string members only (known finding: others come back null)
+	for _, cr := range c.Creds {
+		if hasBBS(cr) {
+			for _, a := range cr.Attrs {
+				if a.V.T != "s" {
+					withCoq = false
+				}
+			}
+		}
 	}
 
 	if withCoq && r.coqN < r.maxCq {
@@ -419,6 +465,8 @@ func distOf(c Case, o *Obs) []string {
 		}
 
 		switch {
+		case len(x.Proofs) > 0 && x.Proofs[len(x.Proofs)-1] == 3:
+			d = append(d, "cred:bbs+")
 		case x.SD:
 			d = append(d, "cred:sd-jwt")
 		case x.JWT != 0:
